@@ -800,6 +800,13 @@ def run(ctx):
         ctx.count("small-scope:set", len(ssets))
         ctx.count("small-scope:dict", len(sdicts))
     jobs = []
+    if not ctx.replay:
+        # a third of the owners are falsy objects (a HasTraits class defining __len__ -> 0 or __bool__ -> False)
+        for kind, cases in groups.items():
+            for c in cases:
+                if "falsy" not in c and kind != "default" and rnd.random() < 0.33:
+                    c["falsy"] = rnd.choice(["len", "bool"])
+                    ctx.count("owner:falsy-" + c["falsy"])
     for kind, cases in groups.items():
         if not cases:
             continue
